@@ -48,6 +48,11 @@ def run_variant(path, kind):
             exp = h.get('expect', [''])
             viol = [l for l in outp.splitlines() if l.startswith(('VIOLATED', 'UNDECIDED', 'ANALYSIS-FAILURE'))]
             ok = r.returncode == 1 and all(any(e in l for l in viol) for e in exp)
+            if 'knownmiss' in h:
+                # a slip the checks are known not to detect (kept so that the detection rate stays honest)
+                if r.returncode == 0:
+                    return (path, True, 'KNOWN MISS (%s)' % h['knownmiss'][0])
+                return (path, True, 'known miss, but now detected: %d violation lines — drop the knownmiss header' % len(viol))
             msg = '%d violation lines in %.0fs' % (len(viol), dt) if ok else 'exit=%d expected key %r; got: %s' % (r.returncode, exp, ' || '.join(l[:200] for l in viol[:5]) or outp[-400:])
             return (path, ok, msg)
         else:
@@ -79,7 +84,8 @@ def main():
         with open(os.path.join(VERIF, 'selftest', 'RESULTS.md'), 'w') as f:
             f.write('# Selftest results (mutants must fire, neutral edits must stay silent)\n\n')
             for l in lines: f.write('- ' + l + '\n')
-    print('%d variants, %d failed' % (len(jobs), bad))
+    miss = sum(1 for l in lines if 'KNOWN MISS' in l)
+    print('%d variants, %d failed, %d known misses' % (len(jobs), bad, miss))
     sys.exit(1 if bad else 0)
 
 main()
